@@ -479,10 +479,11 @@ def rules(repo, tier):
     from ..optional import rule_optional
     from ..mode import mode_rules
     from ..callsig import rule_callsig
+    from ..docsig import rule_docsig
     from ..restore import rule_restore
     return list(_rules_core(repo, tier)) + [rule_memo(repo, 'C14.MEMO', 'history independence: nothing computed from the contents of a tensor argument is kept '
                                                       'under the identity, address or version of that tensor, in module-level storage, or published from a generator '
                                                       'before it is complete - a later call with the same object and other contents must not be answered from it',
                                                       ['pypose.module.lqr', 'pypose.module.mpc', 'pypose.module.dynamics'], floor=3),
-            rule_optional(repo, 'C14.OPT', ['pypose.module.lqr', 'pypose.module.mpc', 'pypose.module.dynamics'])] + mode_rules(repo, 'C14', ['pypose.module.lqr', 'pypose.module.mpc', 'pypose.module.dynamics']) + [rule_callsig(repo, 'C14.SIG', ['pypose.module.lqr', 'pypose.module.mpc', 'pypose.module.dynamics'])] + [
+            rule_optional(repo, 'C14.OPT', ['pypose.module.lqr', 'pypose.module.mpc', 'pypose.module.dynamics'])] + mode_rules(repo, 'C14', ['pypose.module.lqr', 'pypose.module.mpc', 'pypose.module.dynamics']) + [rule_callsig(repo, 'C14.SIG', ['pypose.module.lqr', 'pypose.module.mpc', 'pypose.module.dynamics']), rule_docsig(repo, 'C14.DOC', ['pypose.module.lqr', 'pypose.module.mpc', 'pypose.module.dynamics'])] + [
             rule_restore(repo, 'C14.TEMP', ['pypose.module.lqr', 'pypose.module.mpc'])]
